@@ -401,3 +401,94 @@ func FirstDiff(a, b string) string {
 	}
 	return fmt.Sprintf("at %d: …%s⟦%s⟧ vs ⟦%s⟧", i, a[lo:i], a[i:ha], b[i:hb])
 }
+
+// DiffPath walks two trees in parallel and names the first difference as
+// "<parent kind>.<role>><kind>.<field>[:<what>]" (positions, tokens, values, kinds, list lengths).
+func DiffPath(a, b ast.Vertex) string {
+	return diffPath(a, b, "")
+}
+
+func posEq(p, q *position.Position) bool {
+	if p == nil || q == nil {
+		return p == q
+	}
+	return *p == *q
+}
+
+func tokDiff(s, t *token.Token) string {
+	switch {
+	case s == nil && t == nil:
+		return ""
+	case s == nil || t == nil:
+		return "presence"
+	case s.ID != t.ID:
+		return "id"
+	case !bytes.Equal(s.Value, t.Value):
+		return "value"
+	case !posEq(s.Position, t.Position):
+		return "position"
+	case len(s.FreeFloating) != len(t.FreeFloating):
+		return "free-floating-count"
+	}
+	for i := range s.FreeFloating {
+		if d := tokDiff(s.FreeFloating[i], t.FreeFloating[i]); d != "" {
+			return "free-floating-" + d
+		}
+	}
+	return ""
+}
+
+func diffPath(a, b ast.Vertex, ctx string) string {
+	if IsNil(a) || IsNil(b) {
+		if IsNil(a) != IsNil(b) {
+			return ctx + ">" + Kind(a) + " vs " + Kind(b) + ":presence"
+		}
+		return ""
+	}
+	if Kind(a) != Kind(b) {
+		return ctx + ">" + Kind(a) + " vs " + Kind(b) + ":kind"
+	}
+	fa, fb := Fields(a), Fields(b)
+	k := Kind(a)
+	for i := range fa {
+		x, y := fa[i], fb[i]
+		here := ctx + ">" + k + "." + x.Name
+		switch x.Kind {
+		case FPos:
+			if !posEq(x.Pos, y.Pos) {
+				return here
+			}
+		case FTok:
+			if d := tokDiff(x.Tok, y.Tok); d != "" {
+				return here + ":" + d
+			}
+		case FToks:
+			if len(x.Toks) != len(y.Toks) {
+				return here + ":count"
+			}
+			for j := range x.Toks {
+				if d := tokDiff(x.Toks[j], y.Toks[j]); d != "" {
+					return here + ":" + d
+				}
+			}
+		case FBytes:
+			if !bytes.Equal(x.Bytes, y.Bytes) {
+				return here
+			}
+		case FNode:
+			if d := diffPath(x.Node, y.Node, k+"."+x.Name); d != "" {
+				return d
+			}
+		case FNodes:
+			if len(x.Nodes) != len(y.Nodes) {
+				return here + ":count"
+			}
+			for j := range x.Nodes {
+				if d := diffPath(x.Nodes[j], y.Nodes[j], k+"."+x.Name); d != "" {
+					return d
+				}
+			}
+		}
+	}
+	return ""
+}
